@@ -139,6 +139,8 @@ impl Binder {
     ///
     /// Returns an error if semantic validation fails.
     pub fn bind(&mut self, plan: &LogicalPlan) -> Result<BindingContext> {
+        // Binding recurses over the plan: refuse one that would overflow the stack
+        plan.check_depth()?;
         self.bind_operator(&plan.root)?;
         Ok(self.context.clone())
     }
